@@ -133,6 +133,8 @@ func FindAnchors(prog *Program) *Anchors {
 			a.Dispatch = f
 		case isBoolErr(sig) && namedIs(p0, grammarPath, "MatchExpression") && sig.Params().Len() >= 2 && namedIs(sig.Params().At(1).Type(), "reflect", "Value"):
 			a.Matchers = append(a.Matchers, f)
+		case isBoolErr(sig) && sig.Recv() == nil && sig.Params().Len() == 2 && namedIs(p0, "reflect", "Value") && namedIs(sig.Params().At(1).Type(), grammarPath, "MatchExpression"):
+			a.Matchers = append(a.Matchers, f) // (value, expression)
 		case isBoolErr(sig) && sig.Recv() == nil && sig.Params().Len() == 2 && namedIs(sig.Params().At(1).Type(), "reflect", "Value") &&
 			(namedIs(p0, grammarPath, "Selector") || namedIs(p0, grammarPath, "MatchValue")):
 			// a matcher narrowed to the part of the expression it reads (its selector for messages, its literal)
@@ -148,7 +150,8 @@ func FindAnchors(prog *Program) *Anchors {
 			} else if a.GetValue == nil {
 				a.GetValue = f
 			}
-		case sig.Params().Len() == 1 && namedIs(p0, "reflect", "Kind") && sig.Results().Len() == 1:
+		case sig.Params().Len() == 1 && namedIs(p0, "reflect", "Kind") && (sig.Results().Len() == 1 || (sig.Results().Len() == 2 && isBool(sig.Results().At(1).Type()))):
+			// (the comparator alone — nil when there is none — or the comparator and whether there is one)
 			// the table of comparators: func(reflect.Kind) func(literal interface{}, value reflect.Value) bool
 			if rs, ok := sig.Results().At(0).Type().Underlying().(*types.Signature); ok && a.EqTable == nil &&
 				rs.Params().Len() == 2 && rs.Results().Len() == 1 && isBool(rs.Results().At(0).Type()) {
@@ -191,6 +194,9 @@ func FindAnchors(prog *Program) *Anchors {
 				break
 			}
 		}
+	}
+	if a.EqTable != nil && a.EqTable.Signature.Results().Len() == 2 {
+		commaOkFuncs[a.EqTable] = true
 	}
 	a.Matchers = refineMatchers(prog, a.Matchers)
 	a.GetOpts = optRoles(prog).getOpts
@@ -374,6 +380,9 @@ func matcherOperands(m *ssa.Function) (expr, value *Sym) {
 	if n < 2 {
 		return nil, nil
 	}
+	if namedIs(m.Params[n-2].Type(), "reflect", "Value") && !namedIs(m.Params[n-1].Type(), "reflect", "Value") {
+		return paramSym(m.Params[n-1]), paramSym(m.Params[n-2]) // (value, expression)
+	}
 	return paramSym(m.Params[n-2]), paramSym(m.Params[n-1])
 }
 
@@ -397,6 +406,9 @@ func matcherCallOperands(st *pstate, ev *Event) (expr, value *Sym) {
 	n := len(ev.Args)
 	if n < 2 {
 		return nil, nil
+	}
+	if len(m.Params) == n && namedIs(m.Params[n-2].Type(), "reflect", "Value") && !namedIs(m.Params[n-1].Type(), "reflect", "Value") {
+		return ev.Args[n-1], ev.Args[n-2] // (value, expression)
 	}
 	return ev.Args[n-2], ev.Args[n-1]
 }
@@ -735,4 +747,13 @@ func evalParams(fn *ssa.Function) (node, datum, opts *ssa.Parameter) {
 		}
 	}
 	return
+}
+
+// comparatorOf: the comparator in what a call of the equality table returned (the result itself, or the first of
+// (comparator, ok)).
+func (a *Anchors) comparatorOf(res *Sym) *Sym {
+	if a.EqTable != nil && a.EqTable.Signature.Results().Len() == 2 && res != nil && res.K != sRes {
+		return &Sym{K: sRes, A: res, Idx: 0}
+	}
+	return res
 }
